@@ -1,2 +1,12 @@
 #!/bin/sh
-exit 0
+# Builds the checker from files on disk only (offline).
+set -e
+cd "$(dirname "$0")"
+export GOFLAGS=-mod=mod GOPROXY=off GOSUMDB=off GOTOOLCHAIN=local GOWORK=off CGO_ENABLED=0
+unset GOOS GOARCH
+mkdir -p bin evidence
+(cd sa && go build -o ../bin/sacheck ./cmd/sacheck)
+(cd sa && go build -o ../bin/goyacc golang.org/x/tools/cmd/goyacc)
+# warm the build cache for the analysed configuration (export data of std)
+(cd /repo && go build ./... >/dev/null 2>&1 || true)
+echo "setup ok: $(ls bin)"
